@@ -59,12 +59,29 @@ def bitmap_templates(ctx, max_n):
                     forced[31031] = list(bits) + bits2
                     z2 = bits2.count(0)
                     ids += ([rng.choice(p.c33) for _ in range(z2)] if op2 == 222 else [OPS[op2]] * z2) or [rng.choice(p.numeric)]
+                elif q < 0.6:
+                    # 235000, other elements, and a new bitmap (often of the SAME length) over those
+                    m = rng.randint(n, n + 2)
+                    n2 = n if rng.random() < 0.7 else rng.randint(1, m)
+                    bits2 = [rng.randrange(2) for _ in range(n2)]
+                    if n2 >= 2 and sum(bits2) == n2:
+                        bits2[rng.randrange(n2)] = 0
+                    op2 = rng.choice([223, 224, 225, 232, 222])
+                    ids += [235000] + [rng.choice(p.numeric + p.codeflag) for _ in range(m)]
+                    ids += [op2 * 1000] + ([236000] if rng.random() < 0.5 else []) + [101000 + n2, 31031]
+                    forced[31031] = list(bits) + bits2
+                    z2 = bits2.count(0)
+                    if op2 in (224, 225):
+                        ids.append(8023 if op2 == 224 else 8024)
+                    ids += ([rng.choice(p.c33) for _ in range(z2)] if op2 == 222 else [OPS[op2]] * z2) or [rng.choice(p.numeric)]
+                    feats_extra = {'after-235000': 1, 'after-235000-same-length': int(n2 == n)}
                 fs = ';'.join('%d=%s' % (k, '.'.join(map(str, v))) for k, v in sorted(forced.items()))
                 comp = rng.random() < 0.35
                 out.append({'ids': ids, 'version': 33, 'edition': 4, 'nsub': rng.choice([1, 1, 2, 3]),
                             'compressed': comp, 'forced': fs, 'seed': rng.randrange(1, 2 ** 32), 'maxrep': 3,
-                            'features': {'bitmap-len-%d' % n: 1, 'op-%d' % op: 1, 'def-' + style: 1}, 'shared': comp,
-                            'bits': list(bits), 'op': op, 'simple': q >= 0.4})
+                            'features': dict({'bitmap-len-%d' % n: 1, 'op-%d' % op: 1, 'def-' + style: 1},
+                                             **(feats_extra if 0.4 <= q < 0.6 else {})), 'shared': comp,
+                            'bits': list(bits), 'op': op, 'simple': q >= 0.6})
     return out
 
 
@@ -73,16 +90,30 @@ def expected_links(labels, values, ids=()):
     k-th attribute value after a bitmap belongs to the k-th zero bit, bits matched
     to the N plain elements preceding the (first) operator.  Returns dict or None
     when the structure is not the simple one this oracle understands."""
-    if 235000 in ids:
-        return None          # 235000 leaves no trace in the decoded labels: outside this oracle
+    BOPS = (222000, 223000, 224000, 225000, 232000)
+    # 235000 leaves no trace in the decoded labels: which bitmap operators follow one is read off the template
+    # (bitmap constructs of the generated templates are at top level, so operator labels come in template order)
+    resets, pending = [], False
+    for x in ids:
+        if x == 235000:
+            pending = True
+        elif x in BOPS:
+            resets.append(pending)
+            pending = False
+    if 235000 in ids and sum(1 for l in labels if l in ('222000', '223000', '224000', '225000', '232000')) != len(resets):
+        return None          # operators inside replications / sequences: outside this oracle
     plain = lambda l: len(l) == 6 and l.isdigit() and l[0] == '0'
     links = {}
     refs = None
     i = 0
     n = len(labels)
+    n_op = 0
     while i < n:
         l = labels[i]
         if l in ('222000', '223000', '224000', '225000', '232000'):
+            if 235000 in ids and resets[n_op]:
+                refs = None          # back references cancelled: the N elements preceding THIS operator
+            n_op += 1
             boundary = i
             j = i + 1
             if j < n and labels[j] == '236000':
